@@ -42,6 +42,8 @@ def analyse_cli(job):
         argv = paths + ["--goals"] + job["cli"]["goals"]
         if job["cli"].get("at_n") is not None:
             argv += ["--at_n", str(job["cli"]["at_n"])]
+        if job["cli"].get("invariants"):
+            argv += ["--invariants"]
         try:
             out = P.run_cli(argv)
         except SystemExit:
@@ -54,7 +56,11 @@ def analyse_cli(job):
         blocks = out.split("- Analysis Result -")[1:]
         res = []
         for b in blocks:
-            res.append([l.strip() for l in b.splitlines() if re.match(r"^(E\(|[a-z_]\w* = |[a-z_]\w* \| n=)", l.strip())])
+            lines = [l.strip() for l in b.splitlines() if re.match(r"^(E\(|[a-z_]\w* = |[a-z_]\w* \| n=)", l.strip())]
+            if job["cli"].get("invariants"):
+                # the printed basis of the invariant ideal of this benchmark (a set: compared sorted)
+                lines += sorted(l.strip() for l in b.split("Invariants")[-1].splitlines() if l.strip().endswith("= 0")) if "Invariants" in b else ["<no invariants section>"]
+            res.append(lines)
         return {"id": job.get("id"), "cli_blocks": res}
     finally:
         import shutil
